@@ -1089,6 +1089,16 @@ var arrayCalls = map[string]callSpec{
 			"Sequential.AsArray": {kind: "let", tmpl: "Mem.alloc mem %r", sets: []string{"mem", "_"}},
 		}
 
+// the class functions of the List
+var listClassCalls = map[string]callSpec{
+	"$.Make":                 {kind: "pure", tmpl: "([] : List α)"},
+	"Sequential.GetIterator": {kind: "pure", tmpl: "%r"},
+	"IteratorLike.GetNext":   {kind: "let", tmpl: "Seq.itNext %r", sets: []string{"_", "%r"}},
+	"IteratorLike.HasNext":   {kind: "pure", tmpl: "(!(%r).isEmpty)"},
+	"ListLike.AppendValue":   {kind: "opt", tmpl: "listAppendValue %1 %r fuel", sets: []string{"%r"}},
+	"ListLike.AppendValues":  {kind: "opt", tmpl: "listAppendValues %1 %r fuel", sets: []string{"%r"}},
+}
+
 var rankerParams = "{σ : Type} (ranker : σ → α → α → Rank × σ)"
 
 var loopTargets = []*ltarget{
@@ -1212,6 +1222,10 @@ var loopTargets = []*ltarget{
 		params: "(v : Slice)", args: "v", state: []string{"mem"}, calls: arrayCalls, slices: "Slice", resTy: ""},
 	{file: "LoopsArray.lean", pkg: "collection", recv: "array_", name: "IsEmpty", lean: "arrayIsEmpty",
 		params: "(v : Slice)", args: "v", state: []string{"mem"}, calls: arrayCalls, slices: "Slice", resTy: ""},
+	{file: "LoopsList.lean", pkg: "collection", recv: "listClass_", name: "MakeFromSequence", lean: "listMakeFromSequence",
+		params: "", args: "", calls: listClassCalls, slices: "List α"},
+	{file: "LoopsList.lean", pkg: "collection", recv: "listClass_", name: "Concatenate", lean: "listConcatenate",
+		params: "", args: "", calls: listClassCalls, slices: "List α"},
 	// C09: the sorter on a memory of arrays
 	{file: "LoopsSorter.lean", pkg: "agent", recv: "sorter_", name: "mergeArrays", lean: "mergeArrays",
 		params: rankerParams, args: "ranker", state: []string{"mem", "w"},
